@@ -140,6 +140,8 @@ pub enum ROp {
 pub struct Resolved {
     pub layers: u8,
     pub level: u8,
+    /// which history of configuration calls builds the writer configuration (see `writer_config_via`)
+    pub cfg_path: u8,
     pub names: Vec<String>,
     pub ops: Vec<ROp>,
     /// model: per file, (name, content)
@@ -215,9 +217,16 @@ pub fn make_name(class: NameClass, idx: usize, empty_taken: &mut bool) -> String
             s
         }
         NameClass::Long65536 => {
-            let p = format!("M{idx}_");
-            let mut s = p.clone();
-            s.extend(std::iter::repeat('b').take(65536 - p.len()));
+            // 65536 BYTES: for odd indices mostly 2-byte characters (half as many characters as bytes)
+            let mut s = format!("M{idx}_");
+            if idx % 2 == 1 {
+                while s.len() + 2 <= 65536 {
+                    s.push('\u{e9}');
+                }
+            }
+            while s.len() < 65536 {
+                s.push('b');
+            }
             s
         }
     }
@@ -325,6 +334,8 @@ pub fn resolve(p: &Program) -> Resolved {
     let mut res = Resolved {
         layers: p.layers & 3,
         level: p.level.min(11),
+        // a function of the case: (key_seed, number of files) spread over the configuration histories
+        cfg_path: ((p.key_seed as usize + p.files.len()) % CONFIG_PATHS as usize) as u8,
         names: Vec::new(),
         ops: Vec::new(),
         model: BTreeMap::new(),
@@ -576,8 +587,79 @@ pub struct BuildInfo {
 }
 
 pub fn writer_config(layers: u8, level: u8, publics: &[PublicKey]) -> ArchiveWriterConfig {
-    let mut cfg = ArchiveWriterConfig::new();
-    cfg.set_layers(Layers::from_bits_truncate(layers & 3));
+    writer_config_via(0, layers, level, publics)
+}
+
+pub const CONFIG_PATHS: u8 = 8;
+
+/// The same writer configuration reached through different histories of configuration calls: whatever the
+/// history, the resulting archive must have the same observable properties.
+pub fn writer_config_via(path: u8, layers: u8, level: u8, publics: &[PublicKey]) -> ArchiveWriterConfig {
+    let target = Layers::from_bits_truncate(layers & 3);
+    let all = Layers::ENCRYPT | Layers::COMPRESS;
+    let mut cfg;
+    match path % CONFIG_PATHS {
+        0 => {
+            cfg = ArchiveWriterConfig::new();
+            cfg.set_layers(target);
+        }
+        1 => {
+            // default (both layers), then switch off what is not wanted
+            cfg = ArchiveWriterConfig::default();
+            for l in [Layers::ENCRYPT, Layers::COMPRESS] {
+                if !target.contains(l) {
+                    cfg.disable_layer(l);
+                }
+            }
+        }
+        2 => {
+            // default, everything off one by one, then the target set at once
+            cfg = ArchiveWriterConfig::default();
+            cfg.disable_layer(Layers::ENCRYPT);
+            cfg.disable_layer(Layers::COMPRESS);
+            cfg.set_layers(target);
+        }
+        3 => {
+            cfg = ArchiveWriterConfig::new();
+            for l in [Layers::COMPRESS, Layers::ENCRYPT] {
+                if target.contains(l) {
+                    cfg.enable_layer(l);
+                }
+            }
+        }
+        4 => {
+            cfg = ArchiveWriterConfig::new();
+            cfg.set_layers(all);
+            cfg.disable_layer(all & !target);
+        }
+        5 => {
+            // a layer toggled back and forth before the final choice
+            cfg = ArchiveWriterConfig::new();
+            cfg.enable_layer(Layers::ENCRYPT);
+            cfg.disable_layer(Layers::ENCRYPT);
+            cfg.enable_layer(Layers::COMPRESS);
+            cfg.disable_layer(Layers::COMPRESS);
+            cfg.enable_layer(target);
+        }
+        6 => {
+            // keys and level given first, layers last
+            cfg = ArchiveWriterConfig::new();
+            cfg.with_compression_level(level.min(11) as u32).expect("level");
+            if layers & 1 != 0 {
+                cfg.add_public_keys(publics);
+            }
+            cfg.set_layers(all);
+            cfg.set_layers(Layers::EMPTY);
+            cfg.set_layers(target);
+            return cfg;
+        }
+        _ => {
+            cfg = ArchiveWriterConfig::default();
+            cfg.set_layers(Layers::EMPTY);
+            cfg.enable_layer(target);
+            cfg.disable_layer(Layers::EMPTY);
+        }
+    }
     cfg.with_compression_level(level.min(11) as u32).expect("level");
     if layers & 1 != 0 {
         cfg.add_public_keys(publics);
@@ -587,13 +669,46 @@ pub fn writer_config(layers: u8, level: u8, publics: &[PublicKey]) -> ArchiveWri
 
 /// Execute a resolved program against `ArchiveWriter` writing into `sink`.
 pub fn build_into<W: Write>(res: &Resolved, publics: &[PublicKey], sink: W) -> Result<(W, BuildInfo), String> {
-    let cfg = writer_config(res.layers, res.level, publics);
+    let mut flush_models = Vec::new();
+    let (w, sym_key, nonce) = run_ops(res, publics, sink, &mut flush_models)?;
+    Ok((w, BuildInfo { sym_key, nonce, flush_models }))
+}
+
+/// A sink whose content stays reachable when the writer fails half-way.
+#[derive(Clone, Default)]
+pub struct SharedSink(pub std::sync::Arc<std::sync::Mutex<RecSink>>);
+impl Write for SharedSink {
+    fn write(&mut self, b: &[u8]) -> std::io::Result<usize> {
+        self.0.lock().unwrap().write(b)
+    }
+    fn flush(&mut self) -> std::io::Result<()> {
+        self.0.lock().unwrap().flush()
+    }
+}
+
+/// Run the program as far as the writer accepts it: bytes at the destination, destination length at each flush of
+/// the destination, model at each `flush()` that returned Ok, and the writer's error if a call failed.
+#[allow(clippy::type_complexity)]
+pub fn build_partial(res: &Resolved, publics: &[PublicKey]) -> (Vec<u8>, Vec<usize>, Vec<BTreeMap<String, usize>>, Option<String>) {
+    let shared = SharedSink::default();
+    let mut models = Vec::new();
+    let r = util::catch(|| run_ops(res, publics, shared.clone(), &mut models).map(|_| ()));
+    let err = match r {
+        Err(p) => Some(format!("writer {}", p.short())),
+        Ok(Err(e)) => Some(e),
+        Ok(Ok(())) => None,
+    };
+    let s = shared.0.lock().unwrap();
+    (s.buf.clone(), s.flush_lens.clone(), models, err)
+}
+
+fn run_ops<W: Write>(res: &Resolved, publics: &[PublicKey], sink: W, flush_models: &mut Vec<BTreeMap<String, usize>>) -> Result<(W, [u8; 32], [u8; 8]), String> {
+    let cfg = writer_config_via(res.cfg_path, res.layers, res.level, publics);
     let sym_key = *cfg.encryption_key();
     let nonce = *cfg.encryption_nonce();
     let mut w = ArchiveWriter::from_config(sink, cfg).map_err(|e| format!("from_config: {e:?}"))?;
     let mut ids: Vec<Option<u64>> = vec![None; res.names.len()];
     let mut appended: BTreeMap<String, usize> = BTreeMap::new();
-    let mut flush_models = Vec::new();
     for (i, op) in res.ops.iter().enumerate() {
         match op {
             ROp::Start { f } => {
@@ -630,7 +745,7 @@ pub fn build_into<W: Write>(res: &Resolved, publics: &[PublicKey], sink: W) -> R
         }
     }
     w.finalize().map_err(|e| format!("finalize: {e:?}"))?;
-    Ok((w.into_raw(), BuildInfo { sym_key, nonce, flush_models }))
+    Ok((w.into_raw(), sym_key, nonce))
 }
 
 pub struct Built {
